@@ -1,6 +1,6 @@
 # C12 -- brace- and special-character-aware string primitives.
 # Model: coq/Model/BibtexStr.v; spec: coq/Spec/BibtexStrSpec.v; theorems: coq/Props/C12.v
-import itertools, random, re
+import itertools, random, re, json, os
 from core import *
 
 ID = 'C12'
@@ -562,3 +562,34 @@ def extra_checks(ck, tier, rng):
         fails.append(('vm_compute evaluation of dispatch differs from the extracted runner (or the file failed to compile)', log[-1500:], False))
     yield {'name': 'vm_compute_crosscheck', 'evaluations': len(sample), 'failures': fails,
            'info': 'dispatch evaluated by vm_compute inside Coq on a sample of the quick stream equals the output of the extracted OCaml runner'}
+
+    # generator reach, measured: the implementation side of a sample of the quick stream under `coverage`,
+    # restricted to the anchored line ranges (function-body lines only: module-level lines ran at import)
+    try:
+        import coverage
+        u = _u()
+        import pybtex.bibtex.builtins as bmod
+        files = {u.__file__: [(96, 604)], bmod.__file__: [(133, 145), (233, 236), (246, 249), (259, 264), (278, 287), (312, 315)]}
+        cov = coverage.Coverage(include=list(files), data_file=None)
+        cov.start()
+        n = 0
+        r3 = random.Random(ck.seed)
+        for stream, fn, a in gen('quick', random.Random(ck.seed)):
+            if stream == 'pinned' or r3.random() < 0.02:
+                FUNCS[fn][1](norm(a)); n += 1
+        cov.stop()
+        info = {}
+        for f, ranges in files.items():
+            _, stmts, _, missing, _ = cov.analysis2(f)
+            src_lines = open(f).read().split('\n')
+            def body(l):
+                t = src_lines[l - 1]
+                return t.startswith('    ') and not t.lstrip().startswith(('def ', 'class ', '@'))
+            inr = lambda l: any(a <= l <= b for a, b in ranges)
+            st = [l for l in stmts if inr(l) and body(l)]
+            ms = [l for l in missing if inr(l) and body(l)]
+            info[os.path.basename(f)] = {'anchored_body_statements': len(st), 'not_executed': ms}
+        yield {'name': 'impl_line_coverage', 'evaluations': n, 'failures': [],
+               'info': 'anchored function-body statements executed by a sample of the streams: %s' % json.dumps(info)}
+    except Exception as e:
+        yield {'name': 'impl_line_coverage', 'evaluations': 0, 'failures': [], 'info': 'coverage measurement unavailable: %r' % (e,)}
